@@ -506,6 +506,11 @@ func init() {
 		explanation: "Decides the 'never modify an operand that is not the receiver' clause of C05 by MODSET.mat — parameter write summaries of every function reachable from mat (SSA, level-sensitive points-to with escape summaries, VTA call graph, noasm bodies for the kernels): no exported function or method of mat may write through a matrix-typed parameter other than the receiver or a parameter named dst (187 parameters; accessor calls through the read-only Matrix interfaces are trusted not to write). It also decides the 'partial overlap panics instead of returning' mechanism of C05 for every exported pointer-receiver method of the overlap-aware mat types (Dense, VecDense, SymDense, TriDense, CDense and the band/diag/tridiag types; ...To(dst) methods use dst as destination): OVERLAP.guard — a forward must-analysis over each method's CFG proves that at every kernel write of the destination (blas64/lapack64/asm call, copy or Data store) every operand whose raw storage is read by that same statement has, on every path, passed a checkOverlap*/isolatedWorkspace guard, an identity test (recv == operand edge), the isolated-workspace edge (restore != nil), or delegation to a method that guards it; a failed type assertion makes the guard vacuous (no storage to compare). OVERLAP.iso — every isolatedWorkspace restore closure is deferred or called. OVERLAP.elemsize — in both the default and the safe build the address difference of two slices is divided by the size of exactly their element type. OVERLAP.symmetric — the two overlap predicates (checkOverlap, checkOverlapComplex) hand rectanglesOverlap only arguments that treat both operands alike, apart from the columns they swap explicitly (overlap is a symmetric relation; `a.Stride` for `min(a.Stride, b.Stride)` is reported); TWIN.shadow — checkOverlapComplex ('generate this file from shadow.go') is the image of checkOverlap. Copy/Clone methods (memmove semantics) are out of scope. Does NOT decide correctness of the modular arithmetic inside rectanglesOverlap and offset, Dense.Copy's direction choice, or generic At/set loops over operands of unknown type; user-defined Matrix implementations whose accessors write are outside MODSET's assumption. OVERLAP.extent — the storage offset returned by offset/offsetComplex is compared only with zero or with the storage length len(x.Data) of an operand, never with a logical element count, which ignores stride and increment.",
 		assumptions: commonAssumptions,
 		run: func(tier string, res *core.Result) {
+			mg := matargs.Run(def).Only("MAT.guardorder")
+			mg.Floor("overlap_guard_calls", 50)
+			res.Merge(mg)
+			fa := factx.Run(def).Only("FACT.alias")
+			res.Merge(fa)
 			r := overlap.Run(def)
 			r.Floor("methods_with_operands_and_writes", 35)
 			r.Floor("operand_write_obligations", 45)
@@ -585,6 +590,9 @@ func init() {
 			g := goproto.Run(def, core.Pkgs("./optimize"))
 			g.Floor("go_statements", 3)
 			res.Merge(g)
+			ic := initx.RunComplete(def, "./optimize/...")
+			ic.Floor("state_fields_written_while_running", 40)
+			res.Merge(ic)
 			la := goproto.RunLatch(def, core.Pkgs("./optimize/..."))
 			la.Floor("close_once_latches", 1)
 			res.Merge(la)
@@ -838,6 +846,8 @@ func dump(argv []string) {
 		res = errx.Run(def, core.Pkgs(argv[1:]...))
 	case "latch":
 		res = goproto.RunLatch(def, core.Pkgs(argv[1:]...))
+	case "initcomplete":
+		res = initx.RunComplete(def, argv[1:]...)
 	case "betascale":
 		res = flagx.RunBetaScale(def, core.Pkgs(argv[1:]...))
 	case "guardop":
